@@ -158,7 +158,8 @@ class USBSignalInEndpoint(Elaboratable):
             with m.State("WAIT_FOR_ACK"):
 
                 # If the host does ACK, we're done! Move back to our idle state.
-                with m.If(self.interface.handshakes_in.ack):
+                # (An ACK only counts while the most recent token is still our own IN token.)
+                with m.If(self.interface.handshakes_in.ack & targeting_endpoint):
                     m.d.comb += self.status_read_complete.eq(1)
                     m.d.usb += self.interface.tx_pid_toggle[0].eq(~self.interface.tx_pid_toggle[0])
                     m.next = "IDLE"
